@@ -230,6 +230,8 @@ func checkC19(p *Program, r *Report) {
 	// ---- a loaded trie renders what was loaded: every field String() reads is replaced by every load
 	checkFreshFor(p, r, "C19.fresh", str, "String", 1)
 	checkRankEnd(p, r, "C19.rank-end", fs)
+	// ---- leaf lines carry the retained values (shared with C01): value array layout decided per element
+	checkVLenWidth(p, r, "C19.vlen-width")
 }
 
 func isU64Slice(t types.Type) bool {
